@@ -159,7 +159,7 @@ def main():
             return 2
         fl = rp.get("flavour", "base")
         try:
-            binp = build.harness(fl, shared=rp.get("shared", False))
+            binp = build.harness(fl, shared=rp.get("shared", False), wrap=rp.get("wrap", False))
         except Exception as e:  # noqa: BLE001
             print("harness failure: %s" % e)
             return 2
@@ -176,13 +176,13 @@ def main():
     bins = {}
     try:
         for run in runs:
-            fk = (run.get("flavour", "base"), bool(run.get("shared")))
+            fk = (run.get("flavour", "base"), bool(run.get("shared")), bool(run.get("wrap")))
             if fk not in bins:
-                bins[fk] = build.harness(fk[0], shared=fk[1])
+                bins[fk] = build.harness(fk[0], shared=fk[1], wrap=fk[2])
             for envname, (afl, ash) in run.get("aux_bins", {}).items():
-                if (afl, ash) not in bins:
-                    bins[(afl, ash)] = build.harness(afl, shared=ash)
-                run.setdefault("env", {})[envname] = bins[(afl, ash)]
+                if (afl, ash, False) not in bins:
+                    bins[(afl, ash, False)] = build.harness(afl, shared=ash)
+                run.setdefault("env", {})[envname] = bins[(afl, ash, False)]
     except Exception as e:  # noqa: BLE001
         print("harness failure: build: %s" % str(e)[-3000:])
         write_evidence(prop, plan, tier, seed, agg, t0, [], inconclusive="build failed")
@@ -191,7 +191,7 @@ def main():
     # ---- launch shards
     jobs = []
     for ri, run in enumerate(runs):
-        fk = (run.get("flavour", "base"), bool(run.get("shared")))
+        fk = (run.get("flavour", "base"), bool(run.get("shared")), bool(run.get("wrap")))
         n = run.get("shards", 1)
         for s in range(n):
             cmd = list(run.get("prefix", [])) + [bins[fk], run["engine"], "--seed", str(seed),
@@ -278,6 +278,7 @@ def main():
                 rec["cmd"] = cmd
                 rec["flavour"] = run.get("flavour", "base")
                 rec["shared"] = bool(run.get("shared"))
+                rec["wrap"] = bool(run.get("wrap"))
                 if run.get("aux_bins"):
                     rec["aux_bins"] = run["aux_bins"]
                 break
